@@ -163,6 +163,18 @@ def batch_stage(ad, eps, tier, seed, res, tag):
     import random
 
     rnd = random.Random(seed)
+    # an episode that DEAD-ENDS inside the batches of the breadth-first expansion but not when its instance is stepped alone
+    # along the same actions: the (empty) mask depended on the batch-mates
+    dead = [e for e in eps if e["end"] == "deadend"]
+    for e in rnd.sample(dead, min(len(dead), 12 if tier == "quick" else 60)):
+        try:
+            solo = driver.run_rows(ad, [(e["inst"], e["a"])], extra_pad=0)[0]
+        except Exception:  # noqa: BLE001 - the batched run is what C02 judges; nothing to compare here
+            continue
+        if solo["mask"][-1] and not solo["done"][-1]:
+            res.add("C04", "batch-deadend-not-solo", e["inst"], e["a"],
+                    "after these actions the mask is empty inside a batch, but offers %s when the instance is stepped alone"
+                    % solo["mask"][-1])
     done = [e for e in eps if e["end"] == "done"]
     if not done:
         return
